@@ -77,7 +77,7 @@ CHECKS = {
    text="Static: do_is_cell_attacked, do_cell_attackers (both colours) and Checker::is_attacked (both attacker colours) are reduced to "
         "sets of AND-ed factors and must equal the five reference terms (piece set x attack set, pawn table colour inverted, sliders with "
         "matching geometry), boolean forms true iff a term is non-empty; near-attack tables equal geometry; dispatch and check queries use "
-        "the right king and attacker colour. With C15 this is the whole structural content; the reverse-lookup lemma itself is assumed. ADDED: the magic lookups the queries use are exact on every subset of every mask (C15's T2/T3 re-run).",
+        "the right king and attacker colour. With C15 this is the whole structural content; the reverse-lookup lemma itself is assumed. ADDED: the magic lookups the queries use are exact on every subset of every mask (C15's T2/T3 re-run). ADDED: pinned() is tabulated - its model evaluated on 1,700 boards of a structured family (single pins, shields, wrong geometry, simultaneous pins) returns exactly the own men alone between the king and a slider of the line's geometry.",
    note=TB + "Reverse-lookup lemma of chess geometry assumed; occupancy sets assumed consistent (C05)."),
  "C06": dict(cat="other", ref="DESIGN.md §3 C06",
    technique="exhaustive tabulation of is_well_formed by constant propagation over 10x13x64x64 tuples; emitter-set and condition-set comparison of generator vs validator; abstract-board tabulation of the validator; per-site set-algebra evaluation of the generator",
@@ -158,7 +158,7 @@ CHECKS = {
         "san::Move; Move::from_uci*/from_san; MoveChain::push_uci_list/from_uci_list/from_fen; make::Uci/San) every assert terminator, panic "
         "call, std call with a documented panic (slicing, split_at, unwrap, index) and unsafe precondition in the 240 reachable functions is "
         "shown unreachable for all strings; a new std callee must be classified before the check passes. The round-trip clause is not "
-        "decided here; position-dependent stages use the stated validity assumptions (A-KING, A-UNFINISHED).",
+        "decided here; position-dependent stages use the stated validity assumptions (A-KING, A-UNFINISHED). ADDED: the second clause (a returned value, formatted, parses back to itself) is decided as value -> text -> value over every value: uci::Move, san::Move (all variants the parser can return), Coord/Cell/Color/CastlingRights through the evaluated Display/FromStr models, FEN through the field tabulation and the writer/reader automata (rules shared with C08/C09/C10/C20).",
    note=TB + "Std functions are assumed to behave as documented (model table in rules/absint.py)."),
  "C19": dict(cat="other", ref="DESIGN.md §3 C19",
    technique="abstract interpretation of instantiated MIR in checked and optimised configurations: every unsafe operation is an obligation "
